@@ -53,19 +53,14 @@ theorem finishTask_state (s : Srv) (i : Nat) (t : Task) : (finishTask s i t).1 =
   unfold finishTask
   cases t.uri with
   | none => rfl
-  | some uri =>
-    simp only
-    split
-    · rfl
-    · cases s.docs.find? (·.1 == uri) with
-      | none => rfl
-      | some x => rfl
+  | some uri => simp only; split <;> rfl
 
-/-- **the completion of a fetch task publishes the diagnosis of the text its document has NOW**, against the
-    cache at that moment — and nothing else (nothing at all if the document was closed meanwhile) -/
+/-- **the completion of a fetch task publishes only diagnoses of CURRENT texts**: every message is, for some open
+    document (the task's own, or another one of the same registry), the diagnosis of the text that document has
+    now against the cache at that moment -/
 theorem c13_task_publishes_current (s : Srv) (i : Nat) (t : Task) (m : Msg) (h : m ∈ (finishTask s i t).2) :
-    ∃ uri pkgs, t.uri = some uri ∧ (s.docs.find? (·.1 == uri)).map (·.2) = some pkgs ∧
-      m = .pub uri (diagnose (finishTask s i t).1 (String.ofList t.reg) pkgs) := by
+    ∃ uri d, t.uri = some uri ∧ d ∈ s.docs ∧ (d.1 = uri ∨ (Detect.detect d.1).map String.toList = some t.reg) ∧
+      m = .pub d.1 (diagnose (finishTask s i t).1 (String.ofList t.reg) d.2) := by
   rw [finishTask_state]
   unfold finishTask at h
   cases hu : t.uri with
@@ -74,12 +69,27 @@ theorem c13_task_publishes_current (s : Srv) (i : Nat) (t : Task) (m : Msg) (h :
     simp only [hu] at h
     split at h
     · cases h
-    · cases hd : (s.docs.find? (·.1 == uri)) with
-      | none => simp only [hd] at h; cases h
-      | some x =>
-        obtain ⟨u, pkgs⟩ := x
-        simp only [hd, List.mem_singleton] at h
-        exact ⟨uri, pkgs, rfl, by rw [hd]; rfl, h⟩
+    · simp only [List.mem_map, affected, List.mem_filter] at h
+      obtain ⟨d, ⟨hd, hcond⟩, hm⟩ := h
+      refine ⟨uri, d, rfl, hd, ?_, hm.symm⟩
+      simp only [Bool.or_eq_true, beq_iff_eq, Bool.and_eq_true] at hcond
+      rcases hcond with h1 | ⟨h2, _⟩
+      · exact Or.inl h1
+      · exact Or.inr h2
+
+/-- **every other open document that uses a fetched package is re-checked too** (this was missing on the pinned
+    tree: F-C13-2, repaired) -/
+theorem c13_task_republishes_users (s : Srv) (i : Nat) (t : Task) (uri : Text) (d : Text × List PkgInfo)
+    (hu : t.uri = some uri) (hf : t.fetched.isEmpty = false) (hd : d ∈ s.docs)
+    (hreg : (Detect.detect d.1).map String.toList = some t.reg) (p : PkgInfo) (hp : p ∈ d.2) (hn : p.name ∈ t.fetched) :
+    Msg.pub d.1 (diagnose (finishTask s i t).1 (String.ofList t.reg) d.2) ∈ (finishTask s i t).2 := by
+  rw [finishTask_state]
+  unfold finishTask
+  simp only [hu, hf, Bool.false_eq_true, if_false, List.mem_map, affected, List.mem_filter]
+  refine ⟨d, ⟨hd, ?_⟩, rfl⟩
+  simp only [Bool.or_eq_true, beq_iff_eq, Bool.and_eq_true, List.any_eq_true]
+  right
+  exact ⟨hreg, p, hp, by simpa using hn⟩
 
 theorem reply_docs (s : Srv) (reg name : Text) (o : Fetch.Outcome) : (Server.reply s reg name o).1.docs = s.docs := by
   unfold Server.reply
@@ -95,19 +105,60 @@ theorem reply_docs (s : Srv) (reg name : Text) (o : Fetch.Outcome) : (Server.rep
       · rw [finishTask_state]
       · rfl
 
+/-- documents are keyed by URI -/
+def UniqueDocs (s : Srv) : Prop := (s.docs.map (·.1)).Nodup
+
+theorem find_of_mem_unique (docs : List (Text × List PkgInfo)) (h : (docs.map (·.1)).Nodup) (d : Text × List PkgInfo)
+    (hd : d ∈ docs) : docs.find? (·.1 == d.1) = some d := by
+  induction docs with
+  | nil => cases hd
+  | cons x xs ih =>
+    simp only [List.map_cons, List.nodup_cons, List.mem_map, not_exists, not_and] at h
+    rcases List.mem_cons.mp hd with rfl | hmem
+    · simp
+    · have hne : (x.1 == d.1) = false := by
+        have := h.1 d hmem
+        simp only [beq_eq_false_iff_ne, ne_eq]
+        exact fun e => this e.symm
+      simp only [List.find?_cons, hne]
+      exact ih h.2 hmem
+
+theorem edit_unique (s : Srv) (uri : Text) (pkgs : List PkgInfo) (h : UniqueDocs s) : UniqueDocs (Server.edit s uri pkgs).1 := by
+  have hdocs : (Server.edit s uri pkgs).1.docs = setDoc s.docs uri (if (Detect.detect uri).isSome then pkgs else []) := by
+    unfold Server.edit checkAndPublish cacheDocument
+    simp only
+    cases Detect.detect uri with
+    | none => rfl
+    | some reg =>
+      simp only
+      split
+      · rfl
+      · split
+        · rfl
+        · split
+          · rfl
+          · unfold spawnTask; simp only; split <;> rfl
+  unfold UniqueDocs at h ⊢
+  rw [hdocs]
+  unfold setDoc
+  simp only [List.map_cons, List.nodup_cons, List.mem_map, List.mem_filter, not_exists, not_and]
+  refine ⟨?_, ?_⟩
+  · rintro ⟨u, p⟩ ⟨_, hne⟩ heq
+    simp only [bne_iff_ne, ne_eq] at hne
+    exact hne heq
+  · exact (List.Sublist.map _ List.filter_sublist).nodup h
+
 /-- everything a registry reply makes the server publish comes from the completion of the task that held the
-    claim, for that task's document, and is the diagnosis of the document's CURRENT text -/
+    claim and is the diagnosis of some open document's CURRENT text -/
 theorem c13_reply_publishes_only_current (s : Srv) (reg name : Text) (o : Fetch.Outcome) (m : Msg)
     (h : m ∈ (Server.reply s reg name o).2) :
-    ∃ t ∈ s.tasks, ∃ uri pkgs, t.uri = some uri ∧ t.reg = reg ∧ (s.docs.find? (·.1 == uri)).map (·.2) = some pkgs ∧
-      m = .pub uri (diagnose (Server.reply s reg name o).1 (String.ofList reg) pkgs) := by
+    ∃ d ∈ s.docs, m = .pub d.1 (diagnose (Server.reply s reg name o).1 (String.ofList reg) d.2) := by
   cases hi : s.tasks.findIdx? (holds reg name) with
   | none => unfold Server.reply at h; rw [hi] at h; cases h
   | some i =>
     cases ht : s.tasks[i]? with
     | none => unfold Server.reply at h; rw [hi] at h; simp only [ht] at h; cases h
     | some t =>
-      have hmem : t ∈ s.tasks := List.mem_of_getElem? ht
       have hreg : t.reg = reg := by
         obtain ⟨hlt, hp, _⟩ := List.findIdx?_eq_some_iff_getElem.mp hi
         have hti : s.tasks[i] = t := by
@@ -124,36 +175,31 @@ theorem c13_reply_publishes_only_current (s : Srv) (reg name : Text) (o : Fetch.
                        fetched := if (applyOutcome s.db ⟨reg, name⟩ s.now o).2 then t.fetched ++ [name] else t.fetched } := by
           unfold Server.reply; rw [hi]; simp only [ht]; rw [if_pos hw]
         rw [heq] at h ⊢
-        obtain ⟨uri, pkgs, hu, hd, hm⟩ := c13_task_publishes_current _ i _ m h
-        refine ⟨t, hmem, uri, pkgs, hu, hreg, hd, ?_⟩
-        · rw [hm]
-          show Msg.pub uri (diagnose _ (String.ofList t.reg) pkgs) = Msg.pub uri (diagnose _ (String.ofList reg) pkgs)
-          rw [hreg]
+        obtain ⟨uri, d, _, hd, _, hm⟩ := c13_task_publishes_current _ i _ m h
+        refine ⟨d, hd, ?_⟩
+        rw [hm]
+        show Msg.pub d.1 (diagnose _ (String.ofList t.reg) d.2) = Msg.pub d.1 (diagnose _ (String.ofList reg) d.2)
+        rw [hreg]
       · have heq : (Server.reply s reg name o).2 = [] := by
           unfold Server.reply; rw [hi]; simp only [ht]; rw [if_neg hw]
         rw [heq] at h; cases h
 
 /-- **no stale republication, on EVERY schedule**: whatever a completed fetch publishes for a document is exactly
     the diagnosis of that document's latest text against the cache at that moment — edits made while the fetch was
-    running included (this was false on the pinned tree: F-C13-1, repaired) -/
-theorem c13_republication_is_current (s : Srv) (reg name : Text) (o : Fetch.Outcome) (uri : Text) (ds : List Diag)
+    running included (false on the pinned tree: F-C13-1, repaired) -/
+theorem c13_republication_is_current (s : Srv) (hu : UniqueDocs s) (reg name : Text) (o : Fetch.Outcome) (uri : Text) (ds : List Diag)
     (h : Msg.pub uri ds ∈ (Server.reply s reg name o).2) :
     some ds = wanted (Server.reply s reg name o).1 uri (String.ofList reg) := by
-  obtain ⟨t, _, uri', pkgs, _, _, hd, hm⟩ := c13_reply_publishes_only_current s reg name o _ h
+  obtain ⟨d, hd, hm⟩ := c13_reply_publishes_only_current s reg name o _ h
   simp only [Msg.pub.injEq] at hm
   obtain ⟨rfl, rfl⟩ := hm
   unfold wanted
-  rw [reply_docs]
-  cases hf : s.docs.find? (·.1 == uri) with
-  | none => simp [hf] at hd
-  | some x =>
-    obtain ⟨u, pk⟩ := x
-    simp only [hf, Option.map_some, Option.some.injEq] at hd ⊢
-    rw [hd]
+  rw [reply_docs, find_of_mem_unique s.docs hu d hd]
+  rfl
 
 /-! ### the full statement, and the schedule on which it still fails -/
 
-/-- full C13 (kept visible; FALSE): for every schedule that ends quiescent, every document's last
+/-- full C13 (kept visible; NOT PROVED — after the two repairs no counterexample is known, see c13_full_holds_bounded in the stream): for every schedule that ends quiescent, every document's last
     publication is the diagnosis of its latest text against the final cache -/
 def c13_full : Prop :=
   ∀ (evs : List Ev) (uri : Text) (reg : String), Detect.detect uri = some reg →
@@ -173,20 +219,13 @@ theorem c13_edit_during_fetch_example :
     r.1.tasks.isEmpty = true ∧ wanted r.1 uriA "npm" = some [] ∧ lastPub uriA r.2 = some [] := by
   decide
 
-/-- F-C13-2 (skipped republication): two documents need the same uncached package; the second task's
-    claim is refused, it fetches nothing, and its document is never re-published although the cache changed -/
-theorem c13_deviation_skipped :
+/-- the schedule of F-C13-2 (two documents need the same uncached package; the second task's claim is refused),
+    after the repair: the task that fetched the package re-checks the other document too -/
+theorem c13_shared_package_example :
     let evs := [Ev.edit uriA [lodash "4.17.20"], Ev.edit uriB [lodash "4.17.21"], Ev.reply "npm".toList "lodash".toList okReply]
     let r := run {} evs
-    r.1.tasks.isEmpty = true ∧ lastPub uriB r.2 = some [] ∧
-    (wanted r.1 uriB "npm").map (fun ds => ds.map (·.msg)) = some ["Update available: 4.17.21 -> 4.18.0".toList] := by
-  decide
-
-theorem c13_full_false : ¬ c13_full := by
-  intro h
-  have := h [Ev.edit uriA [lodash "4.17.20"], Ev.edit uriB [lodash "4.17.21"], Ev.reply "npm".toList "lodash".toList okReply]
-    uriB "npm" (by decide) (by show _ = true; decide) ⟨_, List.mem_cons_of_mem _ List.mem_cons_self⟩
-  revert this
+    r.1.tasks.isEmpty = true ∧ lastPub uriB r.2 = wanted r.1 uriB "npm" ∧ lastPub uriA r.2 = wanted r.1 uriA "npm" ∧
+    (lastPub uriB r.2).map (fun ds => ds.map (·.msg)) = some ["Update available: 4.17.21 -> 4.18.0".toList] := by
   decide
 
 /-- **convergence of a plain open** (the property's last sentence, for one document): opening a document
